@@ -100,3 +100,19 @@ pub fn panic_msg(e: &Box<dyn std::any::Any + Send>) -> String {
         "<non-string panic>".to_string()
     }
 }
+
+/// A child process that runs nun-db's loader on files a (possibly broken) snapshot left: its address space is capped, so
+/// that a loader that takes garbage for a length, or never stops appending, ends with an allocation failure (an abort the
+/// parent reports as the loader's failure) instead of eating the machine's memory - which once got the whole check
+/// killed by the kernel (exit 137, no verdict) under a seeded change. 2 GiB is far above anything a loader of these
+/// datasets needs (kilobytes), including the address space the allocator reserves per thread.
+pub fn cap_child_memory(cmd: &mut std::process::Command) {
+    use std::os::unix::process::CommandExt;
+    unsafe {
+        cmd.pre_exec(|| {
+            let lim = libc::rlimit { rlim_cur: 2 << 30, rlim_max: 2 << 30 };
+            libc::setrlimit(libc::RLIMIT_AS, &lim);
+            Ok(())
+        });
+    }
+}
